@@ -1,15 +1,15 @@
 #!/bin/bash
 # final pass: every seed of rounds 1-3 against the current checks; keep as seeded/<id>
 cd /verif; rm -rf /tmp/seedfinal; mkdir -p /tmp/seedfinal
-one() { p=$1; for r in 1 2 3 4 5 6 7; do for k in 1 2; do
-  case $r in 1) src=seeded/_incoming/$p-$k;; 2) src=seeded/_incoming2/$p-$k;; 3) src=seeded/_incoming3/$p-$k;; 4) src=seeded/_incoming4/$p-$k;; 5) src=seeded/_incoming5/$p-$k;; 6) src=seeded/_incoming6/$p-$k;; 7) src=seeded/_incoming7/$p-$k;; esac
+one() { p=$1; for r in 1 2 3 4 5 6 7 8; do for k in 1 2; do
+  case $r in 1) src=seeded/_incoming/$p-$k;; 2) src=seeded/_incoming2/$p-$k;; 3) src=seeded/_incoming3/$p-$k;; 4) src=seeded/_incoming4/$p-$k;; 5) src=seeded/_incoming5/$p-$k;; 6) src=seeded/_incoming6/$p-$k;; 7) src=seeded/_incoming7/$p-$k;; 8) src=seeded/_incoming8/$p-$k;; esac
   name=$p-r$r-$k
   [ -f $src/patch.diff ] || continue
   [ -d seeded/_obsolete/$name ] && continue
   python3 tools/seedcheck.py $p $src --skip-suite --keep-as $name > /tmp/seedfinal/$name.json 2>&1
 done; done; }
 export -f one
-echo "$@" | tr ' ' '\n' | xargs -P 5 -I{} bash -c 'one {}'
+echo "$@" | tr ' ' '\n' | xargs -P ${J:-5} -I{} bash -c 'one {}'
 for f in /tmp/seedfinal/*.json; do python3 - $f <<'PY'
 import json,sys
 t=open(sys.argv[1]).read()
